@@ -63,7 +63,8 @@ theorem wfL_fixL (c : RCfg) : ∀ (xs : List OT) (alc : Bool) (parms : List Arm)
     simp only [OT.fixL, OT.wfL]
     refine ⟨?_, wfL_fixL c rest false parms pib hr⟩
     simp only [OT.wf]
-    refine ⟨a, its, arms, ht, h1, h2, h3, h4, h5, h6, h7, h8, h9, h10, h11, ?_, ?_, multOk_fixL false h14⟩
+    refine ⟨a, its, arms, ht, h1, h2, h3, h4, h5, h6,
+      (fun hb => ⟨by rw [hb, fixEo_kw]; exact (h7 hb).1, (h7 hb).2⟩), h8, h9, h10, h11, ?_, ?_, multOk_fixL false h14⟩
     · intro hht; rw [h12 hht]; simp [OT.fixL]
     · have := wf_fix_items c (.node arm tag blk ty so eo fields items) arms blk (by simpa [OT.itemsOf] using h13)
       simpa [OT.itemsOf] using this
@@ -108,21 +109,53 @@ theorem bumpOff_eq {alc : Bool} {off : Nat} (h : alc = true → 1 ≤ off) : bum
   · rename_i hh; have := h hh.1; omega
   · rfl
 
+/-- the end offset of a loaded element is the one the writer uses: behind a `//` comment as last item the parser
+    recorded an offset ≥ 1 (`OT.endOk`: the `/end` token stood on a later line), and otherwise the writer's
+    `ends_in_line_comment` says "no" (`endsLC_fixL`: it is exact on lexable content) -/
+theorem fixEo_of_endOk (blk : Bool) (eo : Nat) (fields : List Val) (items : List OT) (hf : ∀ f ∈ fields, FieldLex f)
+    (hw : OT.lexWL items)
+    (he : blk = true → ∀ text off, items.getLast? = some (.cmt text off) → isLineCmt text = true → 1 ≤ eo) :
+    OT.fixEo blk eo fields (OT.fixL false items) = eo := by
+  cases hl : OT.lastLC items with
+  | false => exact fixEo_of_not_last_cmt blk eo fields items hf hw hl
+  | true =>
+    cases blk with
+    | false => exact fixEo_kw
+    | true =>
+      unfold OT.lastLC at hl
+      cases hg : items.getLast? with
+      | none => rw [hg] at hl; cases hl
+      | some x =>
+        rw [hg] at hl
+        cases x with
+        | node _ _ _ _ _ _ _ _ => cases hl
+        | cmt text off => exact fixEo_of_pos (he rfl text off hg hl)
+
 mutual
-theorem fix_noBump_items : ∀ (o : OT), OT.noBumpL false o.itemsOf → OT.fixL false o.itemsOf = o.itemsOf
-  | .node _ _ _ _ _ _ _ items, h => fixL_of_noBump items false h
-  | .cmt _ _, _ => by simp [OT.itemsOf, OT.fixL]
-/-- then the writer's offsets are the loaded ones -/
-theorem fixL_of_noBump : ∀ (xs : List OT) (alc : Bool), OT.noBumpL alc xs → OT.fixL alc xs = xs
-  | [], _, _ => by simp [OT.fixL]
-  | .cmt text off :: rest, alc, h => by
+theorem fix_noBump_items : ∀ (o : OT), OT.noBumpL false o.itemsOf → OT.lexWL o.itemsOf → OT.endOkL o.itemsOf →
+    OT.fixL false o.itemsOf = o.itemsOf
+  | .node _ _ _ _ _ _ _ items, h, hw, he => fixL_of_noBump items false h hw he
+  | .cmt _ _, _, _, _ => by simp [OT.itemsOf, OT.fixL]
+/-- then the writer's offsets are the loaded ones: no start offset is bumped (`OT.noBumpL`), and no end offset either
+    (`fixEo_of_endOk`, for lexable items whose trailing line comments have a line break in front of `/end`) -/
+theorem fixL_of_noBump : ∀ (xs : List OT) (alc : Bool), OT.noBumpL alc xs → OT.lexWL xs → OT.endOkL xs →
+    OT.fixL alc xs = xs
+  | [], _, _, _, _ => by simp [OT.fixL]
+  | .cmt text off :: rest, alc, h, hw, he => by
     simp only [OT.noBumpL] at h
-    simp only [OT.fixL, bumpOff_eq h.1, fixL_of_noBump rest _ h.2]
-  | .node arm tag blk ty so eo fields items :: rest, alc, h => by
+    simp only [OT.lexWL] at hw
+    simp only [OT.endOkL] at he
+    simp only [OT.fixL, bumpOff_eq h.1, fixL_of_noBump rest _ h.2 hw.2 he.2]
+  | .node arm tag blk ty so eo fields items :: rest, alc, h, hw, he => by
     simp only [OT.noBumpL] at h
+    simp only [OT.lexWL, OT.lexW] at hw
+    simp only [OT.endOkL, OT.endOk] at he
     have h1 := fix_noBump_items (.node arm tag blk ty so eo fields items) (by simpa [OT.itemsOf] using h.2.1)
+      (by simpa [OT.itemsOf] using hw.1.2.2.2.1) (by simpa [OT.itemsOf] using he.1.2)
     simp only [OT.itemsOf] at h1
-    simp only [OT.fixL, bumpOff_eq h.1, h1, fixL_of_noBump rest false h.2.2]
+    have h2 := fixEo_of_endOk blk eo fields items hw.1.2.2.1 hw.1.2.2.2.1 he.1.1
+    rw [h1] at h2
+    simp only [OT.fixL, bumpOff_eq h.1, h1, fixL_of_noBump rest false h.2.2 hw.2 he.2, h2]
 end
 
 /-! ## the last root item is a block -/
